@@ -456,7 +456,9 @@ def required_zones(c):
             last[z] = vals            # a repeated zone id replaces the earlier plan
         for z, vals in last.items():
             for v in vals:
-                b = (v or "").encode()
+                if v is None or v not in c["variants"]:
+                    continue      # STORE admits declared variants only (C06); such rows exist for the correspondence only
+                b = v.encode()
                 if cmp_holds(op, b, lit):
                     req.add(z)
         return req
@@ -542,9 +544,6 @@ def classify(c, impl):
         declared = c["lit"][0] == "s" and c["lit"][1] in c["variants"]
         if op == "neq" and not declared:
             return "EnumNeqUndeclaredLiteral"
-        # undeclared VALUES in the zone cannot be stored (C06); they are generated for the correspondence only
-        if any((v or "") not in c["variants"] for _, vals in c["zones"] for v in vals):
-            return "EnumUndeclaredValueInZone"
         return None
     if st == "temp":
         if op == "neq":
